@@ -905,4 +905,230 @@ def credsStep (byValue watcherRecovers : Bool) (p : CredsProc) (e : CredsEvent) 
 def credsSteps (byValue watcherRecovers : Bool) (p : CredsProc) (es : List CredsEvent) : CredsProc :=
   es.foldl (credsStep byValue watcherRecovers) p
 
+/-! ## The secrets watcher over several files
+
+`internal/watcher`: one goroutine (`startWatching`) reads the events of one fsnotify watcher for all registered files
+(TLS key stores, the key store of the JWT signer, of the HTTP message signatures, the redis credentials) and starts the
+listeners of a file on a Write event.  fsnotify binds a watch to the file that is at the path when it is registered:
+when that file is removed, replaced by a rename or moved away, the watch is gone and a Remove / Rename event is
+sent; a file that appears at the path afterwards is not watched.  What the loop does with that event is the
+parameter `WatchLoop`; the code ignores it (`WatchLoop.head`). -/
+
+/-- what the event loop of the watcher does with a Remove / Rename event -/
+structure WatchLoop where
+  /-- it registers the path with fsnotify again and starts the listeners ("follow replaced files") -/
+  renew : Bool
+  /-- … and leaves the loop (`return` inside `for { select { … } }`) when that registration fails -/
+  returnOnFailedRenewal : Bool
+  deriving DecidableEq, Repr, Inhabited
+
+/-- the code: Write events start listeners, every other event is ignored -/
+def WatchLoop.head : WatchLoop := ⟨false, false⟩
+
+/-- what happens to the watched files, in the order in which the loop gets to see it (paths are numbered) -/
+inductive FileOp
+  /-- the content of the file at `p` is changed in place (written, truncated) -/
+  | written (p : Nat)
+  /-- its permissions are changed -/
+  | attrib (p : Nat)
+  /-- the file is gone from `p` (removed, moved away, its directory removed) and nothing is at `p` when the loop gets
+  to the event -/
+  | fileRemoved (p : Nat)
+  /-- the file is gone from `p` and another one is there when the loop gets to the event (a new version renamed over
+  it; `rm` + `cp` quicker than the loop) -/
+  | fileReplaced (p : Nat)
+  /-- a file appears at `p` where none was (created again, moved back, directory created again) -/
+  | fileBack (p : Nat)
+  /-- `Add(p, listener)` for a path not registered so far -/
+  | register (p : Nat)
+  deriving DecidableEq, Repr, Inhabited
+
+/-- the watcher and the files -/
+structure Watcher where
+  /-- the goroutine is in its loop -/
+  alive : Bool
+  /-- paths at which a file is -/
+  present : List Nat
+  /-- paths with listeners (`w.m`) -/
+  registered : List Nat
+  /-- paths whose file fsnotify holds a watch on -/
+  watched : List Nat
+  /-- the notifications handed to listeners so far (the path of each, in order) -/
+  delivered : List Nat
+  deriving DecidableEq, Repr, Inhabited
+
+/-- `l` with `p` added unless it is there -/
+def addPath (p : Nat) (l : List Nat) : List Nat := if l.contains p then l else p :: l
+
+/-- `l` without `p` -/
+def dropPath (p : Nat) (l : List Nat) : List Nat := l.filter (· != p)
+
+def watchStep (l : WatchLoop) (w : Watcher) : FileOp → Watcher
+  | .written p =>
+    if w.alive && w.present.contains p && w.watched.contains p then { w with delivered := w.delivered ++ [p] } else w
+  | .attrib _ => w      -- a Chmod event: not a Write event
+  | .fileRemoved p =>
+    let w1 := { w with present := dropPath p w.present }
+    if !w.watched.contains p then w1      -- nobody watched that file: no event
+    else
+      -- fsnotify drops its watch and sends Remove / Rename
+      let w2 := { w1 with watched := dropPath p w.watched }
+      if !w.alive then w2
+      -- registering the path again fails: there is no file
+      else if l.renew && l.returnOnFailedRenewal then { w2 with alive := false }
+      else w2
+  | .fileReplaced p =>
+    let w1 := { w with present := addPath p w.present }
+    if !w.watched.contains p then w1
+    else
+      let w2 := { w1 with watched := dropPath p w.watched }
+      if !w.alive then w2
+      else if l.renew then { w2 with watched := p :: w2.watched, delivered := w2.delivered ++ [p] }
+      else w2
+  | .fileBack p => { w with present := addPath p w.present }      -- nothing watches the path: no event
+  | .register p =>
+    if w.present.contains p && !w.registered.contains p then
+      { w with registered := p :: w.registered, watched := p :: w.watched }
+    else w
+
+def watchRun (l : WatchLoop) (w : Watcher) (ops : List FileOp) : Watcher := ops.foldl (watchStep l) w
+
+/-- the operations that take the file at `y` away -/
+def FileOp.displaces (y : Nat) : FileOp → Bool
+  | .fileRemoved p => p == y
+  | .fileReplaced p => p == y
+  | _ => false
+
+/-- the operations that change a file's content -/
+def FileOp.isWrite : FileOp → Bool
+  | .written _ => true
+  | _ => false
+
+/-! ## Rule sets polled from an HTTP endpoint
+
+`internal/rules/provider/httpendpoint`: `ruleSetEndpoint.FetchRuleSet` and `provider.watchChanges` (the job run every
+`watch_interval`).  A rule set is identified with the list of its rule ids (the provider compares SHA-256 hashes of
+the content). -/
+
+/-- how reading the body of a `200` response ends below HTTP -/
+inductive Transfer
+  /-- everything the server announced has arrived -/
+  | complete
+  /-- the connection broke before that (fewer bytes than `Content-Length` announces, a chunked transfer without its
+  last chunk, a reset): reading fails after some prefix of the body -/
+  | brokenOff
+  deriving DecidableEq, Repr, Inhabited
+
+/-- what the bytes sent are -/
+inductive EndpointContent
+  | empty
+  /-- not a rule set document -/
+  | unparsable
+  /-- a rule set with these rules; `accepted`: whether rule factory and repository take it -/
+  | ruleSet (ids : List String) (accepted : Bool)
+  deriving DecidableEq, Repr, Inhabited
+
+/-- what a poll finds -/
+inductive Polled
+  /-- no response at all -/
+  | unreachable
+  /-- a response with a status other than 200 -/
+  | status (code : Nat)
+  | body (t : Transfer) (content : EndpointContent)
+  deriving DecidableEq, Repr, Inhabited
+
+/-- the kinds of errors `FetchRuleSet` returns -/
+inductive FetchErr
+  | internal | configuration | communication | emptyRuleSet
+  deriving DecidableEq, Repr, Inhabited
+
+/-- `FetchRuleSet`. `readFailure` is the kind of error a body that breaks off ends in: the code hands the body to
+the decoder as it arrives, so the failed read surfaces as a decoding error (`internal`). -/
+def fetchRuleSet (readFailure : FetchErr) : Polled → Except FetchErr (List String × Bool)
+  | .unreachable => .error .communication
+  | .status _ => .error .communication
+  | .body .brokenOff _ => .error readFailure
+  | .body .complete .empty => .error .emptyRuleSet
+  | .body .complete .unparsable => .error .internal
+  | .body .complete (.ruleSet ids accepted) => .ok (ids, accepted)
+
+/-- what `watchChanges` makes of a poll -/
+inductive PollOutcome
+  /-- the fetch failed in a way that makes the provider leave everything alone (it returns the error) -/
+  | kept
+  /-- nothing to do -/
+  | unchanged
+  | created | updated | deleted
+  /-- the processor refused the rule set -/
+  | createdRefused | updatedRefused
+  deriving DecidableEq, Repr, Inhabited
+
+/-- `watchChanges` + `ruleSetsUpdated`: the state is the rule set in force from the endpoint. Only `internal` and
+`configuration` errors keep it; every other failure of the fetch counts as "the rule set is gone". -/
+def pollEndpoint (readFailure : FetchErr) (st : Option (List String)) (r : Polled) :
+    PollOutcome × Option (List String) :=
+  match fetchRuleSet readFailure r with
+  | .error e =>
+    if e == .internal || e == .configuration then (.kept, st)
+    else
+      match st with
+      | some _ => (.deleted, none)
+      | none => (.unchanged, none)
+  | .ok (ids, accepted) =>
+    match st with
+    | some old =>
+      if old == ids then (.unchanged, st)
+      else if accepted then (.updated, some ids) else (.updatedRefused, st)
+    | none => if accepted then (.created, some ids) else (.createdRefused, none)
+
+def pollRun (readFailure : FetchErr) (st : Option (List String)) (rs : List Polled) : Option (List String) :=
+  rs.foldl (fun s r => (pollEndpoint readFailure s r).2) st
+
+/-! ## The status of a RuleSet resource (kubernetes provider)
+
+`internal/rules/provider/kubernetes`: after every event the handlers (`addRuleSet`, `updateRuleSet`, `deleteRuleSet`,
+on the informer's goroutine, where client-go's `HandleCrash` logs a panic and panics again) call `updateStatus`: it
+splits `status.activeIn` of the resource at "/" and takes the first two parts, sends a PATCH of the status
+subresource and looks at the status code of a failure. -/
+
+/-- the checks in `updateStatus` -/
+structure StatusGuards where
+  /-- the second part of `status.activeIn` is only taken if there is one -/
+  splitChecked : Bool
+  /-- the status code is only looked at if the error is an answer of the API server (`errors.As` succeeded) -/
+  asChecked : Bool
+  deriving DecidableEq, Repr, Inhabited
+
+def StatusGuards.head : StatusGuards := ⟨true, true⟩
+def StatusGuards.original : StatusGuards := ⟨false, false⟩
+
+/-- how the PATCH of the status ends -/
+inductive PatchAnswer
+  /-- accepted -/
+  | ok
+  /-- refused by the API server with this status code -/
+  | status (code : Nat)
+  /-- no usable answer: the API server cannot be reached, the connection breaks, the response cannot be decoded — an
+  error that is not a `*StatusError` -/
+  | noAnswer
+  deriving DecidableEq, Repr, Inhabited
+
+/-- `updateStatus`. `parts`: into how many parts "/" splits `status.activeIn` (an absent or empty value is replaced
+by "0/0" first: 2). A conflict (409, 422) makes it fetch the resource and start over, here: with the next answer; when
+the answers are used up the PATCH is accepted. -/
+def updateStatus (g : StatusGuards) (parts : Nat) : List PatchAnswer → Out Unit
+  | [] => if parts < 2 && !g.splitChecked then .panic else .ok ()
+  | a :: rest =>
+    if parts < 2 && !g.splitChecked then .panic      -- `usedBy[1]`: index out of range
+    else
+      match a with
+      | .ok => .ok ()
+      | .noAnswer => if g.asChecked then .ok () else .panic      -- `statusErr.ErrStatus`: nil pointer
+      | .status code => if code == 409 || code == 422 then updateStatus g parts rest else .ok ()
+
+/-- a RuleSet event on the informer's goroutine: whatever the processor did with the rule set, the handler ends with
+the status update -/
+def ruleSetEvent (g : StatusGuards) (parts : Nat) (answers : List PatchAnswer) : Nat → Out Unit × Nat :=
+  fun handled => (updateStatus g parts answers, handled + 1)
+
 end Heimdall.Loaders
